@@ -25,7 +25,7 @@ ASSUMPTIONS = [
 
 def floors(tier):
     return {"states_checked": 3000, "pairs_matched_bit_exact": 8000, "chains_skipping_an_iterate": 60, "restart_states_checked": 150,
-            "inherited_pairs_checked": 300, "operators_spd_checked": 2500, "diag_operators": 800, "switch_states_checked": 300, "__nontrivial__": 150}
+            "inherited_pairs_checked": 300, "operators_spd_checked": 2500, "diag_operators": 800, "diag_operators_with_zero_columns": 200, "rejected_pair_then_failed_search_then_progress": 20, "switch_states_checked": 300, "__nontrivial__": 150}
 
 
 def cases(tier, seed):
@@ -38,7 +38,8 @@ def cases(tier, seed):
         cfg = {
             "jac": "callable",
             "maxcor": int(rng.integers(1, 11)),
-            "maxls": int(gen.pick(rng, [2, 3, 4] if hard else [3, 5, 20])),
+            "maxls": int(gen.pick(rng, [1, 2, 2, 3, 4] if hard else [3, 5, 20])),
+            "eps_SY": float(gen.pick(rng, [2.2e-16, 1e-2, 0.1, 0.3, 0.5])) if hard else 2.2e-16,
             "maxiter": int(gen.pick(rng, [4, 8, 15, 30])),
             "maxfun": int(gen.pick(rng, [40, 200, 15000])),
             "ftol": float(gen.pick(rng, [0.0, 1e-12])),
@@ -51,6 +52,14 @@ def cases(tier, seed):
         if chain and rng.random() < 0.3:
             cfg["restart_maxcor"] = int(rng.integers(1, cfg["maxcor"] + 1))
         yield {"kind": "run", "problem": ps, "cfg": cfg, "chain": chain}
+    # memory reboots: starved line searches with a demanding curvature test on small non-convex problems, so that a rejected pair is
+    # often followed at once by a failed line search (the history is then rebuilt from one point) and by further iterations
+    nst = 1500 if tier == "quick" else 30000
+    for i in range(nst):
+        ps = gen.rand_spec(rng, ("rastrigin", "ackley", "griewank", "styblinski_tang", "rosenbrock", "oscillating"), nmax=5, nmin=1)
+        cfg = {"jac": "callable", "maxcor": int(rng.integers(1, 7)), "maxls": int(gen.pick(rng, [1, 1, 2])), "eps_SY": float(gen.pick(rng, [0.05, 0.1, 0.3, 0.5])),
+               "maxiter": int(gen.pick(rng, [20, 40])), "maxfun": 15000, "ftol": 0.0, "gtol": 1e-9, "cb": "never"}
+        yield {"kind": "run", "problem": ps, "cfg": cfg, "chain": []}
     nsw = 500 if tier == "quick" else 8000
     for i in range(nsw):
         ps = gen.rand_spec(rng, ("qp", "qp_quartic"), nmax=7, nmin=2, boxes=("none", "mixed", "boxed"), starts=("interior", "face"), condmax=1e3)
@@ -186,9 +195,16 @@ def run_case(spec, out, keys):
         old = np.seterr(all="ignore")
         G = [P.g(start_x.copy()) * s]
         tags = dict(family=P.spec["family"], restart=step > 0)
+        prev_rejected, prev_nit = False, None
         for i, rec in enumerate(tr.cb):
             X.append(np.array(rec["xk"], dtype=float))
             G.append(P.g(X[-1].copy()) * s)
+            nit_i = int(rec["snap"]["nit"])
+            if prev_rejected and prev_nit is not None and nit_i > prev_nit + 1:
+                out.count("rejected_pair_then_failed_search_then_progress")
+            sk_i = rec["snap"]["sk"]
+            prev_rejected = not (sk_i is not None and sk_i.shape[0] >= 1 and np.array_equal(sk_i[-1], X[-1] - X[-2]))
+            prev_nit = nit_i
             r = judge_state(out, rec["snap"], X, G, c["maxcor"], inherited, f"{name} step={step} callback#{i}", dict(tags, where="callback"))
             if r is None:
                 np.seterr(**old)
@@ -230,6 +246,19 @@ def diag_case(spec, out, keys):
         A = gen.rand_spd(rng, n, float(np.exp(rng.uniform(0, np.log(1e3)))))
         sk = rng.standard_normal((m, n)) * np.exp(rng.uniform(-2, 1, (m, 1)))
         yk = sk @ A + 0.05 * rng.standard_normal((m, n)) * np.linalg.norm(sk @ A, axis=1, keepdims=True) / np.sqrt(n)
+        if n >= 2 and j % 3 == 1:
+            # structured operators: variables that never moved (zero column in sk: stuck on a bound), variables the objective is
+            # linear in (zero column in yk while the variable moved), or both
+            for i in rng.choice(n, size=int(rng.integers(1, max(2, n // 2))), replace=False):
+                r = rng.random()
+                if r < 0.4:
+                    yk[:, i] = 0.0
+                elif r < 0.8:
+                    sk[:, i] = 0.0
+                else:
+                    sk[:, i] = 0.0
+                    yk[:, i] = 0.0
+            out.count("diag_operators_with_zero_columns")
         keep = np.einsum("ij,ij->i", sk, yk) > 1e-8 * np.linalg.norm(sk, axis=1) * np.linalg.norm(yk, axis=1)
         sk, yk = sk[keep], yk[keep]
         if sk.shape[0] == 0:
